@@ -5,9 +5,8 @@ C11 (cartridge part) – no cartridge image and no guest access can crash the ca
 
 The model (`Model/Cart.lean`) returns `none` wherever the Go code can panic (slice index out of
 range, `%` by a zero divisor, the explicit panics of `newMBC`/`prepareROM`).  Here:
-* `c11_construct_total_partial` : for EVERY image shorter than 1 GiB (any length, any bytes)
-  construction either fails or yields a well-formed controller (the unrestricted statement is FALSE
-  for the code: `c11_mbc5_65536_banks_crash`);
+* `c11_construct_total` : for EVERY image (any length, any bytes) construction either fails or
+  yields a well-formed controller;
 * `c11_cart_no_crash`   : from a well-formed controller, EVERY sequence of bus writes (any 16-bit
   address, any value) and machine-cycle ticks runs without a crash, ends well-formed, and a read of
   ANY address succeeds.
@@ -28,17 +27,12 @@ theorem c11_cart_no_crash (c : Mbc) (h : WellFormed c) (ops : List Op) :
     obtain ⟨c', e', w', r'⟩ := ih c1 w1
     exact ⟨c', by simp [run, e1, e'], w', r'⟩
 
-/- Full statement (FALSE for the code as it is, see `c11_mbc5_65536_banks_crash`):
-     theorem c11_construct_total (img : Image) :
-       construct img = none ∨ ∃ c, construct img = some c ∧ WellFormed c
-   What is missing: an MBC5 image that declares 65536 or more banks (header ROM size 0x0F..0x3D,
-   i.e. an image of at least 1 GiB) is accepted by `newMBC`, but `uint16(len(m.rom))` is then 0 and
-   the first ROM-bank write divides by zero.  The proved part covers every image shorter than
-   1 GiB (all cartridge sizes that exist: the largest MBC5 cartridge is 8 MiB). -/
-/-- C11 (cartridge, construction): for EVERY byte string shorter than 1 GiB (length and contents
-    arbitrary), `newMBC` either fails (the constructor panics: no emulator is built) or yields a
-    well-formed controller. -/
-theorem c11_construct_total_partial (img : Image) (hsmall : img.len < 0x40000000) :
+/-- C11 (cartridge, construction): for EVERY byte string (length and contents arbitrary, no size
+    bound), `newMBC` either fails (the constructor panics: no emulator is built) or yields a
+    well-formed controller.  (MBC1 images with 256 or more banks fail in `newMBC1`: `updateBanks`
+    divides by `uint8(len(rom)) = 0`; MBC2, MBC3 and – since /repo commit 37f8d8a – MBC5 reduce bank
+    numbers with an `int` modulo by `len(rom)`, which is never zero.) -/
+theorem c11_construct_total (img : Image) :
     construct img = none ∨ ∃ c, construct img = some c ∧ WellFormed c := by
   unfold construct
   split
@@ -72,11 +66,11 @@ theorem c11_construct_total_partial (img : Image) (hsmall : img.len < 0x40000000
         show 0 < n ∧ 1 < n ∧ 0 < q
         rcases hq with h|h|h|h <;> subst h <;> omega
       · refine Or.inr ⟨_, rfl, ?_⟩
-        show 0 < n % 65536 ∧ 1 < n ∧ 0 < q % 256 ∧ 0 < q
+        show 0 < n ∧ 1 < n ∧ 0 < q % 256 ∧ 0 < q
         rcases hq with h|h|h|h <;> subst h <;> omega
       · exact Or.inl rfl
 
-/-- non-vacuity of `c11_construct_total_partial`/`c11_cart_no_crash`: a 64 KiB MBC1 image with 32 KiB
+/-- non-vacuity of `c11_construct_total`/`c11_cart_no_crash`: a 64 KiB MBC1 image with 32 KiB
     RAM is constructed, is well-formed, and a history that selects out-of-range banks runs -/
 example : ∃ c, construct { len := 0x10000, byte := fun i =>
       if i = 0x147 then 0x03 else if i = 0x148 then 0x01 else if i = 0x149 then 0x03 else i % 251 } = some c
@@ -87,16 +81,28 @@ example : ∃ c, construct { len := 0x10000, byte := fun i =>
   · simp [WellFormed, prepareRAM]
   · rfl
 
-/-- a 65536-bank image (ROM size byte 0x0F) with an MBC5 type byte -/
+/-! ### the MBC5 code before /repo commit 37f8d8a -/
+
+/-- the ROM-bank arms of `(*mbc5).Write` as they were before commit 37f8d8a:
+    `m.romBank %= uint16(len(m.rom))` – the divisor is truncated to 16 bits -/
+def oldMbc5Write (m : Mbc5) (addr v : Nat) : Option Mbc5 :=
+  if 0x2000 ≤ addr ∧ addr < 0x3000 then
+    (mod? (((m.romBank &&& 0xff00) + v) % 65536) (m.romLen % 65536)).bind fun b => some { m with romBank := b }
+  else if 0x3000 ≤ addr ∧ addr < 0x4000 then
+    (mod? ((((v <<< 8) % 65536) + (m.romBank &&& 0x00ff)) % 65536) (m.romLen % 65536)).bind fun b =>
+      some { m with romBank := b }
+  else Mbc5.write m addr v
+
+/-- a 65536-bank image (ROM size byte 0x0F, 1 GiB) with an MBC5 type byte -/
 def bigMbc5 : Image :=
   { len := 65536 * 0x4000, byte := fun i => if i = 0x147 then 0x19 else if i = 0x148 then 0x0f else 0 }
 
-/-- The defect behind the `_partial`: a 1 GiB MBC5 image with ROM size byte 0x0F is ACCEPTED by
-    `newMBC`, and the first write to the ROM-bank register then crashes (`%= uint16(65536)` is a
-    division by zero). -/
-theorem c11_mbc5_65536_banks_crash :
-    ∃ c, construct bigMbc5 = some c ∧ run c [.write 0x2000 0x01] = none := by
-  refine ⟨_, rfl, ?_⟩
-  rfl
+/-- The defect this file found in the OLD code (kept as a regression fact): the 1 GiB image is accepted
+    by `newMBC`, and with the old bank-select arms the first write to 2000-2FFF crashed
+    (`%= uint16(65536)` divides by zero); with the current code the same write succeeds. -/
+theorem c11_old_mbc5_65536_banks_crash :
+    ∃ m, construct bigMbc5 = some (.mbc5 m) ∧ oldMbc5Write m 0x2000 0x01 = none ∧
+      (Mbc5.write m 0x2000 0x01).isSome := by
+  refine ⟨_, rfl, ?_, ?_⟩ <;> rfl
 
 end Tetro.C11Cart
